@@ -113,22 +113,23 @@ class Synth:
         self.x, self.h, self.err = x, h, err
         tgt = list(spec["tgt_ws"])
         final = [h[n] == len(tgt)] + [x[i][n] == self.idx(tgt[i]) for i in range(len(tgt))]
-        # exactly-once instructions: stores and everything named in an ordering constraint
+        # exactly-once instructions: the stores.  A load or hash is a pure read: it may run several times (or not at all if
+        # nobody needs its value), but EVERY occurrence has to respect the ordering constraints (as realize.simulate demands)
         once = set()
         for ins in self.instrs:
             if ins.get("storage") or not ins.get("outpt_sk"):
                 once.add(ins["id"])
         deps = [(a, b) for a, b in dependency_pairs(spec) if a in self.code and b in self.code]
-        for a, b in deps:
-            once.add(a)
-            once.add(b)
         count = []
-        self.pos = {}
         for a in sorted(once):
             occ = [z3.If(t == self.code[a], 1, 0) for t in self.t]
             count.append(z3.Sum(occ) == 1 if occ else z3.BoolVal(False))
-            self.pos[a] = z3.Sum([z3.If(t == self.code[a], j, 0) for j, t in enumerate(self.t)]) if occ else z3.IntVal(0)
-        order = [self.pos[a] < self.pos[b] for a, b in deps]
+        order = []
+        for a, b in deps:
+            for j in range(n):
+                for k in range(0, j + 1):
+                    # b at position k and a at position j >= k: a does not precede b
+                    order.append(z3.Not(z3.And(self.t[j] == self.code[a], self.t[k] == self.code[b])))
         nop = self.code["NOP"]
         nops_last = [z3.Implies(self.t[j] == nop, self.t[j + 1] == nop) for j in range(n - 1)]
         self.final = z3.And(*final)
